@@ -326,7 +326,7 @@ def class_source(rec):
             if a.get("prop"):
                 # the attribute is served by a (cached, overridable) spec_property: what is stored for it is an override or a cache
                 out.append(f"    {n}: {K['ann']}")
-                out.append(f"    @spec_property(cache={a['prop'] == 'cached'!r}, overridable=True)")
+                out.append(f"    @spec_property(cache={a['prop'] == 'cached'!r}, overridable=True" + (f", invalidated_by={list(inv)!r}" if inv else "") + ")")
                 out.append(f"    def {n}(self):")
                 out.append(f"        CB.hit('getter')")
                 out.append(f"        return {K.get('mut', K.get('lit'))}")
@@ -799,6 +799,11 @@ def failing_invalidation_records():
             {"name": "CompInvFactoryColl", "attrs": [{"kind": "scores", "default": "mut"}, {"kind": "tags", "default": "mut"},
                                                       {"kind": "nums", "default": "attr_factory"}],
              "opts": {"invalidated_by": {"nums": ["scores", "tags"]}}},
+            # the link between the attribute being written and the factory-defaulted dependants is a property that stores
+            # NOTHING (uncached): invalidation passes through it without any nested delete that could put things back
+            {"name": "CompInvThroughProperty", "attrs": [{"kind": "int", "default": "lit"}, {"kind": "nums", "default": "none", "prop": "uncached"},
+                                                          {"kind": "scores", "default": "attr_factory"}, {"kind": "tags", "default": "attr_factory"}],
+             "opts": {"invalidated_by": {"nums": ["v"], "scores": ["nums"], "tags": ["nums"]}}},
             {"name": "CompInvFactoryWords", "attrs": [{"kind": "words", "default": "mut"}, {"kind": "nums", "default": "attr_factory"}],
              "opts": {"invalidated_by": {"nums": ["words"]}}}]
 
